@@ -1,24 +1,27 @@
 """C11 - batch lifecycle: pending -> flushed or cancelled, once; no item left pending (HISTX, reference machine R5)."""
 from .. import histx
-from ..histx import HErr, HBaseErr, Val, Tokens, call
+from ..histx import HErr, HBaseErr, HFalsyErr, HFalsyBaseErr, Val, Tokens, call
 
 ID = "C11"
 ENGINE = "HISTX"
 BUILDS = ("pure", "compiled")
 TECHNIQUE = "explicit-state BFS over operation histories on the real objects vs reference state machine"
-BODIES = ["all", "some", "none", "errs", "raise", "raiseB", "new", "selfcancel"]
+# the F flavours use exceptions whose truth value is False (an error must be recognised by `is not None`)
+BODIES = ["all", "some", "none", "errs", "errsF", "raise", "raiseF", "raiseB", "raiseBF", "new", "selfcancel"]
 DEPTH = {"quick": 5, "thorough": 7}
 GENS = {"quick": 2, "thorough": 3}  # successive batches of the kind that the operations may address
 MAX_ITEMS = 3  # in the first batch
 MAX_FRESH = 2  # in every later batch
-RULE = ("for a harness BatchBase subclass (own active-batch pointer switched in _try_switch_active_batch) with each of 8 "
-        "flush-body kinds {sets all items, sets the even-numbered items, sets none, sets item errors, sets item 0 then "
-        "raises Exception, sets item 0 then raises a BaseException subclass, creates a new item of the same kind then sets "
-        "all, sets item 0 then cancels itself} and for the built-in DebugBatch/DebugBatchItem: breadth-first search from 4 "
+RULE = ("for a harness BatchBase subclass (own active-batch pointer switched in _try_switch_active_batch) with each of 11 "
+        "flush-body kinds {sets all items, sets the even-numbered items, sets none, sets item errors (ordinary / with "
+        "truth value False), sets item 0 then raises Exception (ordinary / falsy), sets item 0 then raises a BaseException "
+        "subclass (ordinary / falsy), creates a new item of the same kind then sets all, sets item 0 then cancels itself} "
+        "and for the built-in DebugBatch/DebugBatchItem: breadth-first search from 4 "
         "roots (first batch holding 0,1,2,3 items) over ALL histories up to length 5 (quick) / 7 (thorough) of the "
         "operations {add item through the active-batch pointer; and, addressed to the first batch or to the fresh batch "
         "that replaced it (quick: 2 successive batches, thorough: 3): add item directly to that batch, flush(), cancel(), "
-        "cancel(e1), item_i.value(), item_i.error() (every i), batch.value(), batch.error(), "
+        "cancel(e1), cancel(f1) with f1 an exception whose truth value is False, item_i.value(), item_i.error() (every i), "
+        "batch.value(), batch.error(), "
         "is_flushed/is_cancelled/is_empty, str+dump}; at most 3 items in the first batch and 2 in each later one. "
         "Histories are merged only when (R5 state of every batch; and of the real objects: each batch's "
         "is_computed/_value/_error, len(items), every item's is_computed/_value/_error and notification count, flush-body "
@@ -34,6 +37,8 @@ ASSUMPTIONS = [
     "operations are applied from outside, one after the other, on one thread, without a scheduler",
     "'no item can be added to a finished batch' is read as: the BatchItemBase constructor raises AssertionError (it is an assert)",
     "is_cancelled() after a failing flush body and is_empty() after the batch finished are not judged (statement silent)",
+    "'the flush or cancellation error' means that very exception object, whatever its truth value: the falsy flavours are "
+    "exception classes defining __len__ -> 0 (e.g. an aggregate error carrying an empty list of reasons)",
     "whether a batch cancelled without ever being flushed stops being the active batch is not judged (statement silent)",
     "the content of str()/dump() is not judged here (C18), only that they change nothing",
     "the built-in DebugBatch has one flush body (sets every item to its result); the first batch is a DebugBatch subclass "
@@ -117,6 +122,7 @@ def _harness():
 # R5: the reference batch machine (one per successive batch of the kind)
 
 ASSERT = ("exc", "AssertionError")
+RAISING = {"raise": ("F", HErr), "raiseF": ("Ff", HFalsyErr), "raiseB": ("FB", HBaseErr), "raiseBF": ("FBf", HFalsyBaseErr)}
 CANCELLED = ("exc", "BatchCancelledError")
 
 
@@ -132,10 +138,10 @@ def body_effect(target, body, g, n):
         return ("v", None), [V[i] if i % 2 == 0 else ("e", ASSERT) for i in range(n)], [i % 2 == 0 for i in range(n)], "body", 0
     if body == "none":
         return ("v", None), [("e", ASSERT)] * n, [False] * n, "body", 0
-    if body == "errs":
-        return ("v", None), [("e", ("ie", g, i)) for i in range(n)], [True] * n, "body", 0
-    if body in ("raise", "raiseB"):
-        f = ("F" if body == "raise" else "FB", g)
+    if body in ("errs", "errsF"):
+        return ("v", None), [("e", ("ie" if body == "errs" else "ief", g, i)) for i in range(n)], [True] * n, "body", 0
+    if body in RAISING:
+        f = (RAISING[body][0], g)
         return ("e", f), [V[i] if i == 0 else ("e", f) for i in range(n)], [i == 0 for i in range(n)], "failed", 0
     if body == "new":
         return ("v", None), V, [True] * n, "body", 1
@@ -223,7 +229,7 @@ class World(object):
         self.stats = {}
         self.trouble = []
         self.gens = []
-        self.e1 = self.T.reg(HErr("e1"), "e1")
+        self.errs = {"e1": self.T.reg(HErr("e1"), "e1"), "f1": self.T.reg(HFalsyErr("f1"), "f1")}
         self.name = "c11"
         if target == "harness":
             self.active = H.LB(self)
@@ -321,12 +327,14 @@ class World(object):
         elif k == "errs":
             for i, it in enumerate(items):
                 it.set_error(T.reg(HErr(("ie", gi, i)), ("ie", gi, i)))
-        elif k in ("raise", "raiseB"):
+        elif k == "errsF":
+            for i, it in enumerate(items):
+                it.set_error(T.reg(HFalsyErr(("ief", gi, i)), ("ief", gi, i)))
+        elif k in RAISING:
             if items:
                 items[0].set_value(val(0))
-            if k == "raise":
-                raise T.reg(HErr(("F", gi)), ("F", gi))
-            raise T.reg(HBaseErr(("FB", gi)), ("FB", gi))
+            tag, cls = RAISING[k]
+            raise T.reg(cls((tag, gi)), (tag, gi))
         elif k == "new":
             x = self._add(None)
             if x.batch is b:
@@ -371,7 +379,7 @@ class World(object):
         ops = []
         if b.status == "done" or n < cap(gi):
             ops.append(("add_to", gi))
-        ops += [("flush", gi), ("cancel", gi), ("cancel", gi, "e1")]
+        ops += [("flush", gi), ("cancel", gi), ("cancel", gi, "e1"), ("cancel", gi, "f1")]
         for i in range(n):
             ops += [("ival", gi, i), ("ierr", gi, i)]
         ops += [("bval", gi), ("berr", gi), ("query", gi), ("strdump", gi)]
@@ -410,7 +418,7 @@ class World(object):
         if name == "flush":
             return call(b.flush)
         if name == "cancel":
-            return call(b.cancel, self.e1) if len(op) > 2 else call(b.cancel)
+            return call(b.cancel, self.errs[op[2]]) if len(op) > 2 else call(b.cancel)
         if name == "ival":
             return call(g.items[op[2]].value)
         if name == "ierr":
@@ -494,7 +502,7 @@ class World(object):
         elif name == "cancel":
             self._stat("judged: cancel() on %s batch" % state)
             if was_pending:
-                m.cancel(gi, "e1" if len(op) > 2 else CANCELLED)
+                m.cancel(gi, op[2] if len(op) > 2 else CANCELLED)
             expect(("ret", None), "cancel-raised")
         elif name in ("ival", "ierr"):
             i = op[2]
